@@ -15,34 +15,39 @@ def run(ctx):
                        'with h_eff * e for independent literals of h_eff')
     e = z3.Int('e')
     res = {}
-    for gname, proj, aff in [('G1', 'ec::g1::G1', 'ec::g1::G1Affine'), ('G2', 'ec::g2::G2', 'ec::g2::G2Affine')]:
-        D = models.GroupDomain(proj.replace('::', r'::'), aff).setup(1, proj, aff)
-        ex = C.new_executor(ctx, D.models(), generics_hint={'chain_z': {'PtT': proj}, 'chain_h2_eff': {'PtT': proj}})
-        # chain_z
-        st = State()
-        out, inp = ex.alloc(st, GE(proj, [0])), ex.alloc(st, GE(proj, [e]))
-        ex.call(st, 'chain_z::<%s>' % proj, [out, inp])
-        z = ex.load(st, out).c[0]
-        chk.must_unsat('%s: chain_z(P) = [0xd201000000010000]P' % gname, z != ref.BLS_X * e, group='chain-exponent')
-        res[gname + '.chain_z'] = z
-        st = State()
-        p = ex.alloc(st, GE(proj, [e]))
-        ex.call(st, '<%s as ClearH>::clear_h' % proj, [p])
-        h = ex.load(st, p).c[0]
-        want = ref.H_EFF_G1 if gname == 'G1' else ref.H_EFF_G2
-        chk.must_unsat('%s: clear_h(P) = [h_eff]P' % gname, h != want * e, group='chain-exponent')
-        chk.must_unsat('%s: clear_h is additive (exponent linear in e, no constant term)' % gname,
-                       z3.substitute(h, (e, z3.IntVal(0))) != 0, group='chain-exponent')
-        res[gname + '.clear_h'] = h
-        if gname == 'G2':
+    def _first_pass():
+        for gname, proj, aff in [('G1', 'ec::g1::G1', 'ec::g1::G1Affine'), ('G2', 'ec::g2::G2', 'ec::g2::G2Affine')]:
+            D = models.GroupDomain(proj.replace('::', r'::'), aff).setup(1, proj, aff)
+            ex = C.new_executor(ctx, D.models(), generics_hint={'chain_z': {'PtT': proj}, 'chain_h2_eff': {'PtT': proj}})
+            # chain_z
             st = State()
             out, inp = ex.alloc(st, GE(proj, [0])), ex.alloc(st, GE(proj, [e]))
-            ex.call(st, 'chain_h2_eff::<%s>' % proj, [out, inp])
-            h2 = ex.load(st, out).c[0]
-            chk.must_unsat('G2: chain_h2_eff(P) = [3(x^2-1)h2]P', h2 != (3 * (ref.BLS_X ** 2 - 1) * ref.H2) * e, group='chain-exponent')
-        chk.panic_obligations(ex, gname + '.clear_h')
-        chk.add_executor(ex)
-        chk.extra[gname + '_group_ops'] = D.ops
+            ex.call(st, 'chain_z::<%s>' % proj, [out, inp])
+            z = ex.load(st, out).c[0]
+            chk.must_unsat('%s: chain_z(P) = [0xd201000000010000]P' % gname, z != ref.BLS_X * e, group='chain-exponent')
+            res[gname + '.chain_z'] = z
+            st = State()
+            p = ex.alloc(st, GE(proj, [e]))
+            ex.call(st, '<%s as ClearH>::clear_h' % proj, [p])
+            h = ex.load(st, p).c[0]
+            want = ref.H_EFF_G1 if gname == 'G1' else ref.H_EFF_G2
+            chk.must_unsat('%s: clear_h(P) = [h_eff]P' % gname, h != want * e, group='chain-exponent')
+            chk.must_unsat('%s: clear_h is additive (exponent linear in e, no constant term)' % gname,
+                           z3.substitute(h, (e, z3.IntVal(0))) != 0, group='chain-exponent')
+            res[gname + '.clear_h'] = h
+            if gname == 'G2':
+                st = State()
+                out, inp = ex.alloc(st, GE(proj, [0])), ex.alloc(st, GE(proj, [e]))
+                ex.call(st, 'chain_h2_eff::<%s>' % proj, [out, inp])
+                h2 = ex.load(st, out).c[0]
+                chk.must_unsat('G2: chain_h2_eff(P) = [3(x^2-1)h2]P', h2 != (3 * (ref.BLS_X ** 2 - 1) * ref.H2) * e, group='chain-exponent')
+            chk.panic_obligations(ex, gname + '.clear_h')
+            chk.add_executor(ex)
+            chk.extra[gname + '_group_ops'] = D.ops
+    try:
+        _first_pass()
+    except Exception as e_:
+        ctx.inconclusive('encoder (first pass): %s' % e_)
     chk.ground('h_eff(G1) literal = 1 - x = 0xd201000000010001', ref.H_EFF_G1 == ref.BLS_X + 1)
     chk.ground('h_eff(G2) literal (RFC 9380 8.8.2) = 3 (x^2-1) h2', ref.H_EFF_G2 == 3 * (ref.BLS_X ** 2 - 1) * ref.H2)
     chk.ground('h_eff(G1) = 0 mod h1-part: h1 | h_eff*(x-1)... (h1 = (x-1)^2/3, so 3*h1 = h_eff^2)', 3 * ref.H1 == ref.H_EFF_G1 ** 2)
@@ -52,9 +57,10 @@ def run(ctx):
     chk.trusted += ['rustc MIR printer', 'mirsym', 'z3']
     try:
         finite_order(ctx, res)
-    except Inconclusive as e_:
+    except Exception as e_:          # whatever stops the symbolic part, the native differential below still runs
         ctx.inconclusive('encoder (finite-order pass): %s' % e_)
     chk.discharge()
+    native_differential(ctx)
     for o in chk.failed():
         o.handled = True
         if isinstance(o.meta, dict) and 'finite_order' in o.meta:
@@ -228,6 +234,57 @@ def confirm_finite_order(ctx, o, res):
                       {'obligation': o.name, 'order': m, 'cmd': cmd, 'got': got, 'expected': wtxt, 'profile': 'release', 'solver_model': model})
     else:
         ctx.inconclusive('%s: the solver counterexample (order %d) does not reproduce natively' % (gname, m))
+
+
+def native_differential(ctx):
+    """supplementary oracle and replay target: native clear_h on the identity (canonical and with residual coordinates), on subgroup points
+    given with Z = 1 and with Z != 1, on the order-3 point of E(Fq) and on random curve points of E(Fq) / E'(Fq2), against [h_eff]P computed
+    with the reference curve arithmetic"""
+    import random
+    rnd = random.Random(ctx.seed * 5 + 1)
+    q, r = ref.Q, ref.R_ORDER
+    n = load.Native('release')
+    try:
+        g = n.run(['g1_mul 7', 'g2_mul 7'])
+        P1 = tuple(int(t, 16) for t in g[0].split())
+        t2 = [int(t, 16) for t in g[1].split()]
+        P2 = ((t2[0], t2[1]), (t2[2], t2[3]))
+        l = rnd.randrange(2, q)
+        x = rnd.randrange(q)
+        while ref.fq_sqrt((x ** 3 + 4) % q) is None:
+            x = rnd.randrange(q)
+        R1 = (x, ref.fq_sqrt((x ** 3 + 4) % q))
+        xx = (rnd.randrange(q), rnd.randrange(q))
+        while ref.f2_sqrt(ref.f2_add(ref.f2_mul(ref.f2_sqr(xx), xx), (4, 4))) is None:
+            xx = (rnd.randrange(q), rnd.randrange(q))
+        R2 = (xx, ref.f2_sqrt(ref.f2_add(ref.f2_mul(ref.f2_sqr(xx), xx), (4, 4))))
+        l2 = (rnd.randrange(1, q), rnd.randrange(q))
+        cases1 = [('identity (0,1,0)', None, (0, 1, 0)), ('identity with residual coordinates', None, (5, 7, 0)), ('subgroup point, Z = 1', P1, (P1[0], P1[1], 1)),
+                  ('subgroup point, Z != 1', P1, (P1[0] * l * l % q, P1[1] * pow(l, 3, q) % q, l)), ('point of order 3', (0, 2), (0, 2, 1)),
+                  ('random curve point, Z = 1', R1, (R1[0], R1[1], 1)), ('random curve point, Z != 1', R1, (R1[0] * l * l % q, R1[1] * pow(l, 3, q) % q, l))]
+        m2, s2 = ref.f2_mul, ref.f2_sqr
+        cases2 = [('identity (0,1,0)', None, ((0, 0), (1, 0), (0, 0))), ('identity with residual coordinates', None, ((5, 1), (7, 2), (0, 0))),
+                  ('subgroup point, Z = 1', P2, (P2[0], P2[1], (1, 0))), ('subgroup point, Z != 1', P2, (m2(P2[0], s2(l2)), m2(P2[1], m2(s2(l2), l2)), l2)),
+                  ('random curve point, Z = 1', R2, (R2[0], R2[1], (1, 0))), ('random curve point, Z != 1', R2, (m2(R2[0], s2(l2)), m2(R2[1], m2(s2(l2), l2)), l2))]
+        cmds = ['g1_clear_h %x %x %x' % t for _, _, t in cases1] + ['g2_clear_h ' + ' '.join('%x %x' % c for c in t) for _, _, t in cases2]
+        outs = n.run(cmds)
+    finally:
+        n.close()
+    nbad = 0
+    for (gname, curve, h_eff, cs, os_) in [('G1', ref.E1, ref.H_EFF_G1, cases1, outs[:len(cases1)]), ('G2', ref.E2, ref.H_EFF_G2, cases2, outs[len(cases1):])]:
+        for (nm, pt, _), o, cmd in zip(cs, os_, cmds[:len(cases1)] if gname == 'G1' else cmds[len(cases1):]):
+            want = curve.smul(h_eff, pt) if pt is not None else None
+            if want is None:
+                wtxt = 'inf'
+            elif gname == 'G1':
+                wtxt = '%096x %096x' % want
+            else:
+                wtxt = '%096x %096x %096x %096x' % (want[0][0], want[0][1], want[1][0], want[1][1])
+            if o.strip() != wtxt:
+                nbad += 1
+                ctx.violation('cofactor-native:%s:%s' % (gname, nm), '%s clear_h of the %s differs from [h_eff]P: got %s, want %s' % (gname, nm, o.strip()[:40], wtxt[:40]),
+                              {'cmd': cmd, 'input_class': nm, 'got': o.strip(), 'expected': wtxt, 'profile': 'release'})
+    ctx.chk.extra['native_differential'] = {'cases': len(cases1) + len(cases2), 'disagreements': nbad, 'role': 'supplementary oracle / replay target; the deciding method is the solver run'}
 
 
 def replay(ctx, path):
